@@ -178,6 +178,15 @@ macro_rules! uni_npo_prover {
         }
     };
     (no, $p:ident, $cfg:ident, $d:expr, $p2cfg:expr) => {};
+    // quintic circuit field with the base-field (D=1) permutation table
+    (q5, $p:ident, $cfg:ident, $d:expr, $p2cfg:expr) => {
+        if $cfg.npo.poseidon {
+            $p.register_poseidon2_table::<5>($p2cfg);
+        }
+        if $cfg.npo.recompose {
+            $p.register_recompose_table::<5>(true);
+        }
+    };
 }
 macro_rules! uni_npo_builder {
     (yes, $b:ident, $opts:ident, $p2params:ty, $defperm:path) => {
@@ -190,6 +199,14 @@ macro_rules! uni_npo_builder {
     };
     (no, $b:ident, $opts:ident, $p2params:ty, $defperm:path) => {
         let _ = $opts;
+    };
+    (q5, $b:ident, $opts:ident, $p2params:ty, $defperm:path) => {
+        if $opts.poseidon {
+            $b.enable_poseidon2_perm_base::<$p2params, _>(p3_circuit::ops::generate_poseidon2_trace::<Self::EF, $p2params>, p3_test_utils::LiftPermToQuintic::<Self::BF, _, 16>::new($defperm()));
+        }
+        if $opts.recompose {
+            $b.enable_recompose::<Self::BF>(p3_circuit::ops::generate_recompose_trace::<Self::BF, Self::EF>);
+        }
     };
 }
 macro_rules! uni_npo_keygen {
@@ -204,6 +221,16 @@ macro_rules! uni_npo_keygen {
         }
     };
     (no, $cfg:ident, $npo_prep:ident, $air_builders:ident, $sc:ty, $d:expr) => {};
+    (q5, $cfg:ident, $npo_prep:ident, $air_builders:ident, $sc:ty, $d:expr) => {
+        if $cfg.npo.poseidon {
+            $npo_prep.push(Box::new(p3_circuit_prover::Poseidon2Preprocessor));
+            $air_builders.extend(p3_circuit_prover::batch_stark_prover::poseidon2_air_builders_d5::<$sc>());
+        }
+        if $cfg.npo.recompose {
+            $npo_prep.push(Box::new(p3_circuit_prover::RecomposePreprocessor::new(true)));
+            $air_builders.extend(p3_circuit_prover::batch_stark_prover::recompose_air_builders::<$sc, 5>(1, true));
+        }
+    };
 }
 
 macro_rules! binomial_universe {
@@ -421,9 +448,9 @@ binomial_universe!(
     p3_test_utils::koala_bear_quintic_params::make_test_config,
     p3_field::extension::QuinticTrinomialExtensionField<p3_koala_bear::KoalaBear>,
     5,
-    no,
-    p3_circuit::ops::Poseidon2Config::KOALA_BEAR_D4_W16,
-    p3_poseidon2_circuit_air::KoalaBearD4Width16,
+    q5,
+    p3_circuit::ops::Poseidon2Config::KOALA_BEAR_D1_W16,
+    p3_circuit::ops::KoalaBearD1Width16,
     p3_koala_bear::default_koalabear_poseidon2_16
 );
 binomial_universe!(
@@ -474,4 +501,54 @@ pub fn gl_make_test_config() -> p3_test_utils::goldilocks_params::MyConfig {
     let fri_params = p3_fri::FriParameters::new_testing(challenge_mmcs, 0);
     let pcs = MyPcs::new(Dft::default(), val_mmcs, fri_params);
     MyConfig::new(pcs, Challenger::new(perm))
+}
+
+/// Circuit-proof universe of run `idx` (degree-4 universes carry 7 of 12 runs).
+pub fn uni_of(idx: u64) -> &'static str {
+    match idx % 12 {
+        0 | 2 | 4 | 10 => "U-KB4",
+        1 | 3 | 11 => "U-BB4",
+        5 => "U-BB5",
+        6 => "U-KB5Q",
+        7 => "U-KB8",
+        8 => "U-KB1",
+        _ => "U-GL2",
+    }
+}
+
+/// `with_uni!(name, U, expr)`: evaluate `expr` with `U` bound to the universe type.
+#[macro_export]
+macro_rules! with_uni {
+    ($name:expr, $U:ident, $body:expr) => {
+        match $name {
+            "U-BB4" => {
+                type $U = $crate::uni::Bb4;
+                $body
+            }
+            "U-BB5" => {
+                type $U = $crate::uni::Bb5;
+                $body
+            }
+            "U-KB5Q" => {
+                type $U = $crate::uni::Kb5q;
+                $body
+            }
+            "U-KB8" => {
+                type $U = $crate::uni::Kb8;
+                $body
+            }
+            "U-KB1" => {
+                type $U = $crate::uni::Kb1;
+                $body
+            }
+            "U-GL2" => {
+                type $U = $crate::uni::Gl2;
+                $body
+            }
+            _ => {
+                type $U = $crate::uni::Kb4;
+                $body
+            }
+        }
+    };
 }
